@@ -31,6 +31,7 @@ type status struct {
 	OrderedRanges []string `json:"ordered_ranges"`
 	SyncShim      []string `json:"sync_shim_files"`
 	AtomicShim    []string `json:"atomic_shim_files"`
+	TimerSeam     []string `json:"timer_seam_files"`
 	Roots         []string `json:"package_roots"`
 	Pools         []string `json:"pools"`
 	Missing       []string `json:"missing"`
@@ -157,6 +158,41 @@ func verifKeys[T any](m map[string]T, site int) []string {
 		return nil
 	})
 
+	// ---- 2c. timer seam: time.AfterFunc goes through the shim, so a callback armed by one operation
+	// is something the harness can deliver during a later one (the unchanged tree arms no timers)
+	timerRe := regexp.MustCompile(`\btime\.AfterFunc\(`)
+	pkgClauseRe := regexp.MustCompile(`(?m)^package\s+\w+\s*$`)
+	_ = filepath.Walk(filepath.Join(repo, "pkg"), func(p string, info os.FileInfo, err error) error {
+		if err != nil || info.IsDir() || !strings.HasSuffix(p, ".go") || strings.HasSuffix(p, "_test.go") {
+			return nil
+		}
+		if strings.Contains(p, "/verifsync/") || strings.Contains(p, "/verifatomic/") {
+			return nil
+		}
+		path := p
+		if prev, ok := replace[p]; ok {
+			path = prev
+		}
+		src, err := os.ReadFile(path)
+		if err != nil || !timerRe.Match(src) {
+			return nil
+		}
+		out := timerRe.ReplaceAllString(string(src), "veriftimerpkg.AfterFunc(")
+		loc := pkgClauseRe.FindStringIndex(out)
+		if loc == nil {
+			st.Missing = append(st.Missing, "timer-seam:"+strings.TrimPrefix(p, repo+"/"))
+			return nil
+		}
+		out = out[:loc[1]] + "\n\nimport veriftimerpkg \"github.com/GuanceCloud/platypus/pkg/verifsync\"\n" + out[loc[1]:] + "\nvar _ = time.Now // keeps the import used when AfterFunc was the file's only use of it\n"
+		if path != p {
+			must(os.WriteFile(path, []byte(out), 0o644))
+		} else {
+			put(p, out)
+		}
+		st.TimerSeam = append(st.TimerSeam, strings.TrimPrefix(p, repo+"/"))
+		return nil
+	})
+
 	// ---- 3. package roots: addresses of all package-level variables + typed pool accessors
 	pkgDirs := []string{"pkg/ast", "pkg/token", "pkg/errchain", "pkg/parser", "pkg/engine", "pkg/engine/runtime", "pkg/engine/runtimev2", "pkg/inimpl/guancecloud/funcs", "pkg/inimpl/guancecloud/input"}
 	for _, dir := range pkgDirs {
@@ -246,6 +282,7 @@ import (
 	"runtime"
 	"sync"
 	"sync/atomic"
+	"time"
 )
 
 type (
@@ -337,8 +374,23 @@ func (o *Once) Do(f func()) {
 	}
 }
 
+// AfterFunc is time.AfterFunc behind a seam: with Hooks.Timer installed the callback is handed to the
+// harness (which decides when it is delivered) and the real timer is armed far in the future. The
+// returned *time.Timer is a real one, so Stop and Reset work as ever; the harness delivers a callback
+// only if Stop() still reports the timer as pending.
+func AfterFunc(d time.Duration, f func()) *time.Timer {
+	if Hooks.Timer == nil {
+		return time.AfterFunc(d, f)
+	}
+	t := time.AfterFunc(d+1000*time.Hour, f)
+	Hooks.Timer(t, d, f)
+	return t
+}
+
 // Hooks are installed by the harness. All are optional.
 var Hooks struct {
+	// Timer is told about every time.AfterFunc call of the code under test.
+	Timer func(t *time.Timer, d time.Duration, f func())
 	// Point is called before every pool / lock operation (a scheduling point).
 	Point func(op string, p *Pool)
 	// Blocked is called while a lock is held by somebody else.
